@@ -21,6 +21,14 @@ IDENT_POOL = [
     "user_id", "country", "age", "device", "plan", "segment", "very_long_identifier_name_0123456789",
     "elif_", "else_", "return_", "x_in", "inx", "notin", "ornot", "android_or_ios",
 ]
+# ordinary identifiers that happen to be names of the host language's builtins / modules, or names that the library's own
+# Python code uses for parameters, locals and attributes (a wrapper, a log call or a keyword-passing layer can capture them)
+HOST_NAMES = ("fields args record data params key value name id input_id population weights cum_weights source_code ast code fn func "
+              "callback context ctx env result ret out cls code_holder fn_name run_experiment recompile experiment_fn hashlib input_string "
+              "digest accumulate bisect choices hi total T _floor __class__ __dict__ __init__ __call__ __name__ __doc__ len sorted list "
+              "tuple int float print type object input open range sum min max abs all any repr hash format exec eval compile globals locals "
+              "vars dir getattr setattr isinstance Exception ValueError TypeError e E math random functools itertools pyab_experiment binning "
+              "typing copy sys os re json logging logger log warnings debug msg message text source expr term predicate cond group groups").split()
 # plain identifiers for checks that are not about identifier spelling
 PLAIN_IDENTS = ["x", "y", "a", "b", "u", "n", "uid", "age", "plan", "tier", "zone", "k", "m", "p", "q", "w", "z",
                 "user", "group", "country", "device", "level", "score", "bucket", "cohort", "flag"]
@@ -98,6 +106,22 @@ def long_string(rng, tails=("",)):
     t = "".join(out)[:n]
     tail = rng.choice(list(tails))
     return t + tail
+
+
+def wide_program(rng, k=None, name="wide"):
+    """two (or three) return statements of the SAME length k (default: around the sizes where an implementation might
+    switch strategy: 31, 32, 33, 40, 64) with DIFFERENT weights, behind an if / else-if / else on `tier`"""
+    k = k or rng.choice([31, 32, 33, 40, 64])
+    labels = [lit_str("v%d" % i, quote='"') for i in range(k)]
+
+    def ret():
+        ws = [str(rng.choice([0, 1, 1, 2, 3, 5, 8, 13])) for _ in range(k)]
+        if all(w == "0" for w in ws):
+            ws[0] = "1"
+        return ("ret", list(zip(labels, ws)))
+    cond = ("if", ("cmp", ("id", "tier"), "==", ("lit", lit_str("a", quote='"'))), ret(),
+            ("elif", ("cmp", ("id", "tier"), "==", ("lit", lit_str("b", quote='"'))), ret(), ("else", ret())))
+    return Program(name, lit_str("w", quote='"') if rng.random() < 0.5 else None, ["u"], cond, {"u": "any", "tier": "str"})
 
 
 def rand_int_lit(rng):
@@ -603,6 +627,17 @@ COMMENT_BODIES = ["", " c ", "x", "'", '"', "\"unterminated", "def e { }", "retu
                   'old arm:\x0c, "B" weighted 1', "x\x0b}", "a\x1cb", "n\x85 return", "u\u2028 def", "p\u2029q", "cr\rdef e {", "\x1d\x1e"]
 
 
+def banner(rng):
+    """what people draw in comment blocks: ruler lines of one repeated character starting in column 0, boxes, markers that
+    other tools give a meaning to (merge-conflict markers, shebangs, pragmas, encoding cookies, here-doc and fence lines)"""
+    ch = rng.choice("=<>-#*~+|!%@$_.:^&")
+    n = rng.choice([3, 7, 8, 40, 79, 80])
+    return rng.choice([
+        "\n" + ch * n + "\n", "\n" + ch * n + " title " + ch * n + "\n", ch * n, "\n<<<<<<< HEAD\n=======\n>>>>>>> branch\n",
+        "\n#!/usr/bin/env python\n", "\n# -*- coding: latin-1 -*-\n", "\n```\ncode\n```\n", "\n---\nyaml: 1\n...\n", "\n%% cell\n",
+        "\n@generated\n", "\n// noqa\n", "\nTODO(" + ch * 3 + ")\n", "\n" + " " * 3 + ch * n + "\n", "\n\t" + ch * n + "\n"])
+
+
 def rand_trivia(rng, must=False, allow_empty=True):
     """one trivia sequence: whitespace runs, // comments (newline-terminated), /* */ comments"""
     n = rng.choice([0, 1, 1, 2, 3]) if allow_empty and not must else rng.choice([1, 1, 2, 3])
@@ -615,7 +650,7 @@ def rand_trivia(rng, must=False, allow_empty=True):
             body = rng.choice(COMMENT_BODIES).replace("\n", " ")
             parts.append("//" + body + rng.choice(["\n", "\n\n", "\n \t"]))
         else:
-            body = rng.choice(COMMENT_BODIES)
+            body = rng.choice(COMMENT_BODIES) if rng.random() < 0.8 else banner(rng)
             if rng.random() < 0.3:
                 body = body + "\n" + rng.choice(COMMENT_BODIES) + rng.choice(["", "\n"])
             body = body.replace("*/", "* /")
@@ -815,6 +850,9 @@ def rand_value(tp, rng):
     if tp == "str":
         return rand_string(rng, 6)
     # any
+    if rng.random() < 0.08:
+        # composite ids: str() of a tuple is what reaches the key — a 1-tuple is not its member, any length is an id
+        return rng.choice([(1,), ("u1",), (), (1, 2), ("a", 2, 3.5), ((1,), "x"), ("its",), (None, True)])
     return rng.choice([None, True, False, 0, 1, -1, 2 ** 70, 0.1, float("nan"), float("inf"), -0.0, "", "u1", "josé",
                        "\x00", "a" * 300, rand_string(rng), rng.randint(0, 10 ** 9), str(rng.randint(0, 10 ** 9)),
                        "user_%d" % rng.randint(0, 10 ** 6)])
